@@ -89,15 +89,6 @@ package dotgit
 //gvc:  sink Open requires safe: spec_refsafe(strid(arg0))
 //gvc:end
 
-//gvc:func (*DotGit).setRefRwfs
-//gvc:  props C14
-//gvc:  theory int
-//gvc:  opt coarse
-//gvc:  opt frame args
-//gvc:  requires safe: spec_refsafe(strid(fileName))
-//gvc:  sink OpenFile requires safe: spec_refsafe(strid(arg0))
-//gvc:end
-
 //gvc:func (*DotGit).setRefNorwfs
 //gvc:  props C14
 //gvc:  theory int
@@ -114,4 +105,33 @@ package dotgit
 //gvc:  opt coarse
 //gvc:  opt frame args
 //gvc:  requires safe: spec_refsafe(strid(fileName))
+//gvc:end
+
+// Property C16 (writer side): a reference file is written only while it is
+// locked (when the filesystem can lock) and, for a compare-and-swap update,
+// only after the value read under that lock was found equal to the expected
+// old value; nothing unlocks or closes the file between the check and the
+// write.
+
+// checkReferenceAndTruncate returns nil only if no old value was given or the
+// stored hash (loose file, else packed refs) equals the expected one.
+//gvc:func (*DotGit).checkReferenceAndTruncate
+//gvc:  props C16
+//gvc:  theory int
+//gvc:  opt coarse
+//gvc:  opt frame args
+//gvc:  sink Truncate requires compared: old != nil && ref != nil && forall(k, 0, 32, ref.h.hash[k] == old.h.hash[k])
+//gvc:  grants checked: result == nil ==> f.#checked
+//gvc:end
+
+//gvc:func (*DotGit).setRefRwfs
+//gvc:  props C14 C16
+//gvc:  theory int
+//gvc:  opt coarse
+//gvc:  opt frame args
+//gvc:  requires safe: spec_refsafe(strid(fileName))
+//gvc:  sink OpenFile requires safe: spec_refsafe(strid(arg0))
+//gvc:  sink Write requires locked: ok ==> f.#locked
+//gvc:  sink Write requires checked: f.#checked
+//gvc:  sink Unlock requires never: false
 //gvc:end
